@@ -726,11 +726,29 @@ func ruleInvalidate(c *Ctx) {
 			role := ""
 			for _, fl := range fd.Type.Params.List {
 				ts := types.TypeString(info.TypeOf(fl.Type), nil)
-				if strings.HasSuffix(ts, "protocol.DidChangeTextDocumentParams") {
-					role = "didChange"
-				}
 				if strings.HasSuffix(ts, "protocol.DidSaveTextDocumentParams") {
 					role = "didSave"
+				}
+			}
+			// the change handler is the method that stores the new text: it has a loop over content changes
+			// and a Store into the document sync.Map
+			if role == "" {
+				hasStore, hasLoop := false, false
+				ast.Inspect(fd.Body, func(x ast.Node) bool {
+					switch s := x.(type) {
+					case *ast.CallExpr:
+						if qualName(calleeOf(info, s)) == "sync.Map.Store" {
+							hasStore = true
+						}
+					case *ast.RangeStmt:
+						if se, ok := ast.Unparen(s.X).(*ast.SelectorExpr); ok && se.Sel.Name == "ContentChanges" {
+							hasLoop = true
+						}
+					}
+					return true
+				})
+				if hasStore && hasLoop {
+					role = "didChange"
 				}
 			}
 			if role == "" {
